@@ -920,6 +920,40 @@ func DebugDatagram(in string) string {
 	}
 	s := &wireServer{udp: tab, udpAddr: &net.UDPAddr{IP: net.IPv4(127, 0, 0, 1), Port: int(tab.Self().UDP)}}
 	out := ""
+	if strings.HasPrefix(in, "starve:") {
+		// many sequential bondings while the scheduler is kept busy, then: does bonding still work at all?
+		var n int
+		fmt.Sscan(in[7:], &n)
+		stop := make(chan struct{})
+		for i := 0; i < 64; i++ {
+			go func() {
+				x := 0
+				for {
+					select {
+					case <-stop:
+						return
+					default:
+						x++
+					}
+				}
+			}()
+		}
+		good := 0
+		for i := 0; i < n; i++ {
+			rr := rand.New(rand.NewSource(int64(i + 500)))
+			if reply, _ := s.datagram(rr, "ping-valid"); reply == "pong" {
+				good++
+			}
+		}
+		close(stop)
+		out := fmt.Sprintf("%d pings answered under load;", good)
+		for _, w := range []int{5, 30, 60} {
+			time.Sleep(time.Duration(w) * time.Second)
+			reply, _ := s.datagram(r, "findnode-bonded")
+			out += fmt.Sprintf(" +%ds: %s goroutines=%d;", w, reply, runtime.NumGoroutine())
+		}
+		return out
+	}
 	if strings.HasPrefix(in, "storm:") {
 		var n int
 		fmt.Sscan(in[6:], &n)
